@@ -649,16 +649,13 @@ impl PathIssueManager {
     /// are skipped, so that an eviction always frees a cache slot if there is anything to evict.
     fn pop_front(&mut self) -> Option<IssueMarker> {
         while let Some((issue_id, timestamp)) = self.fifo_issues.pop_front() {
-            match self.cache.entry(issue_id) {
-                hash_map::Entry::Occupied(occupied_entry) => {
-                    // Only remove if timestamps match
-                    if occupied_entry.get().timestamp == timestamp {
-                        return Some(occupied_entry.remove());
-                    }
-                }
-                hash_map::Entry::Vacant(_) => {
-                    debug_assert!(false, "Bad cache: issue ID not found in cache");
-                }
+            // Only remove if timestamps match. An entry whose issue is no longer cached is stale
+            // as well: with a zero deduplication window the same issue can be queued twice with
+            // the same timestamp, and the first of the two entries already evicted it.
+            if let hash_map::Entry::Occupied(occupied_entry) = self.cache.entry(issue_id)
+                && occupied_entry.get().timestamp == timestamp
+            {
+                return Some(occupied_entry.remove());
             }
         }
 
